@@ -33,8 +33,8 @@ EXTRACT = ("theories/Extract/XC20.v", "c20", ["entry_run", "entry_hi", "entry_si
 PYX = {}
 CASE_TIMEOUT = 240
 RULE = ("one case = one random call history of length 2-12 (repetitions, interleavings, the same function on two "
-        "different input sets) over the drivable public functions of the eleven modules (catalog of ~150 calls on "
-        "~125 functions), on input arrays shared by all calls of the history, each array in a dtype from "
+        "different input sets) over the drivable public functions of the eleven modules (catalog of 211 calls on "
+        "132 functions), on input arrays shared by all calls of the history, each array in a dtype from "
         "{bool,uint8,int32,int64,float32,float64} that its role admits and a layout from {C, Fortran, sliced view, "
         "read-only}; non-trivial = at least two calls of the history returned a result (not an exception) and at "
         "least one of them fills a lazily built table or draws from the global generator, or the history repeats a "
@@ -78,8 +78,13 @@ def _side(ctx):
             import gen_effects_c20 as G
         finally:
             sys.path.pop(0)
-        side = G.translate(ctx.staged_source)
-        _SIDE[key] = (side, G.coq_text(side))
+        try:
+            side = G.translate(ctx.staged_source)
+            _SIDE[key] = (side, G.coq_text(side))
+        except Exception as e:                  # remembered: the translator is run once per check
+            _SIDE[key] = e
+    if isinstance(_SIDE[key], Exception):
+        raise _SIDE[key]
     return _SIDE[key]
 
 
@@ -1312,7 +1317,7 @@ MANIFEST = {
         "(only constant tables cached, fills dominate reads, literal seed dominates every global draw, no entropy) are "
         "discharged by kernel computation on the generated table, and each is shown necessary by a refuting witness. "
         "The no-mutation clause has no theorem: it is decided by byte-for-byte (plus shape/strides/dtype/flags) "
-        "comparison of every shared input after every call of random call histories over ~125 public functions in "
+        "comparison of every shared input after every call of random call histories over 132 public functions in "
         "six dtypes and four memory layouts, with each result compared exactly against the same call in a fresh "
         "interpreter; statically, the translator's list of candidate in-place writes to parameters must be empty "
         "outside the documented in-place helpers."),
